@@ -59,7 +59,9 @@ def rel_cases(rng, quick):
     pairs = [(1, 3)] + ([(2, 4)] if nf >= 4 else []) + ([(1, 5), (3, 5)] if nf >= 5 else [])
     a, b = rng.choice(pairs)
     sw = lambda pid, a=a, b=b: {a: b, b: a, -a: -b, -b: -a}.get(pid, pid)
-    out.append(("equal_charge_swap", kind + "_total", th, ob, th, ob, sw, 1.0))
+    # also for a heavy-flavour-tagged observable in the massless scheme (the tagged quark couples, all active quarks share the singlet weight)
+    hv = rng.choice(["total", "total", "charm"]) if nf >= 5 else "total"
+    out.append(("equal_charge_swap", kind + "_" + hv, th, ob, th, ob, sw, 1.0))
     return [(n, name, x, Q2, tA, oA, tB, oB, m, s) for (n, name, tA, oA, tB, oB, m, s) in out]
 
 
